@@ -185,11 +185,7 @@ def run_enc(root, kind, fmt, nul):
 def enc_signature(kind, fmt, nul):
     """which recorded finding explains exit 0 with missing data for this cell, if any"""
     v = KINDS[kind]
-    if nul and ((fmt in ("csv", "tsv") and v[0] == "seq" and v[1]) or (fmt == "xml" and v[0] == "map")):
-        return "nul-drops-output"
     if fmt in ("csv", "tsv") and v[0] == "seq" and v[1] and v[1][0][0] == "map":
-        if any(k[0] != "s" for k, _ in v[1][0][1]):
-            return "csv-header-swallow"
         hdr = [k for k, _ in v[1][0][1]]
         if any(c[0] == "map" and any(k not in hdr for k, _ in c[1]) for c in v[1][1:]):
             return "csv-extra-keys-dropped"
@@ -432,14 +428,9 @@ def scenario_oracle(sc, rc, out, err):
             shown, _ = match_shown(sc, out)
             missing = [r["id"] for r in res if r["id"] not in shown]
             if missing:
-                key = None
-                if sc["nul"] and ((sc["fmt"] in ("csv", "tsv") and any(r["v"][0] == "seq" for r in res)) or
-                                  (sc["fmt"] == "xml" and any(r["v"][0] == "map" for r in res))):
-                    key = "nul-drops-output"
-                bad.append((key, "exit 0 but results %s are not on stdout" % missing[:5]))
+                bad.append((None, "exit 0 but results %s are not on stdout" % missing[:5]))
             if sc["e"] and not truthy:
-                key = "e-false-spelling" if any(r["v"][2] == "False" for r in res if r["v"][0] == "s") else None
-                bad.append((key, "-e: exit 0 although there is no result other than null/false"))
+                bad.append((None, "-e: exit 0 although there is no result other than null/false"))
     else:
         if not err.strip():
             bad.append((None, "exit %d without a message on stderr" % rc))
@@ -535,8 +526,7 @@ def run(chk):
             shutil.rmtree(d, ignore_errors=True)
             chk.count(("e", doc), nontrivial=True)
             if rc != want:
-                report({"kind": "e-flag", "doc": doc, "rc": rc}, "e-false-spelling" if doc.strip() in ("a: False", "a: FALSE") else None,
-                       "-e on %r exits %d, expected %d" % (doc, rc, want))
+                report({"kind": "e-flag", "doc": doc, "rc": rc}, None, "-e on %r exits %d, expected %d" % (doc, rc, want))
 
         # ---------------- (C) whole runs ----------------
         scs = [gen_scenario(chk.rng, i) for i in range(6000 if thorough else 700)]
